@@ -25,3 +25,79 @@ package ast
 
 //@ func (Command).Literal
 //@ ensures result == c.Command
+
+// ---- the printer: every String method returns the canonical form nodeStr/treeStr of
+// /verif/contracts/shared/printer.spec, every Write method appends exactly that ----
+
+//@ iface Node.String
+//@ ensures result == nodeStr(self)
+
+//@ iface Node.Write
+//@ modifies s.text
+//@ ensures s.text == old(s.text) + nodeStr(self)
+
+//@ func (Comment).String
+//@ props C07 C11 C15 C19
+//@ ensures result == commentStr(c.Text)
+
+//@ func (String).String
+//@ props C07 C11 C15 C19
+//@ ensures result == "\"" + s.Text + "\""
+
+//@ func (Ident).String
+//@ props C07 C11 C15 C19
+//@ ensures result == i.Name
+
+//@ func (Command).String
+//@ props C07 C11 C15 C19
+//@ ensures result == c.Command
+
+//@ func (Assign).String
+//@ props C07 C11 C15 C19
+//@ requires a.Value != nil
+//@ ensures result == a.Name.Name + " := " + nodeStr(a.Value) + "\n"
+
+//@ func (Function).String
+//@ props C07 C11 C15 C19
+//@ requires ArgsOK(f.Arguments)
+//@ ensures result == funcStr(f)
+//@ loop 0: invariant 0 <= $i && $i <= len(f.Arguments) && len(args) == $i
+//@ loop 0: invariant forall k int :: {args[k]} 0 <= k && k < $i ==> args[k] == nodeStr(f.Arguments[k])
+//@ loop 0: decreases len(f.Arguments) - $i
+//@ at call Join#0: use join_nodes(args, f.Arguments, len(f.Arguments))
+
+//@ func (Task).String
+//@ props C07 C11 C15 C19
+//@ requires ArgsOK(t.Dependencies) && ArgsOK(t.Outputs)
+//@ ensures result == taskStr(t)
+//@ loop 0: invariant 0 <= $i && $i <= len(t.Dependencies) && len(deps) == $i
+//@ loop 0: invariant forall k int :: {deps[k]} 0 <= k && k < $i ==> deps[k] == nodeStr(t.Dependencies[k])
+//@ loop 0: decreases len(t.Dependencies) - $i
+//@ loop 1: invariant 0 <= $i && $i <= len(t.Commands) && len(commands) == $i && len(deps) == len(t.Dependencies)
+//@ loop 1: invariant forall k int :: {deps[k]} 0 <= k && k < len(t.Dependencies) ==> deps[k] == nodeStr(t.Dependencies[k])
+//@ loop 1: invariant forall k int :: {commands[k]} 0 <= k && k < $i ==> commands[k] == t.Commands[k].Command
+//@ loop 1: decreases len(t.Commands) - $i
+//@ at call Join#0: use join_nodes(deps, t.Dependencies, len(t.Dependencies))
+//@ loop 2: invariant 0 <= $i && $i <= len(t.Outputs) && len(outs) == $i
+//@ loop 2: invariant forall k int :: {outs[k]} 0 <= k && k < $i ==> outs[k] == nodeStr(t.Outputs[k])
+//@ loop 2: decreases len(t.Outputs) - $i
+//@ at call Join#1: use join_nodes(outs, t.Outputs, len(t.Outputs))
+//@ loop 3: invariant 0 <= $i && $i <= len(commands) && len(commands) == len(t.Commands)
+//@ at call WriteString#6: assert s.text == taskHead(t)
+//@ at call WriteString#11: assert s.text == taskHead(t) + outsStr(t.Outputs)
+//@ loop 3: invariant s.text == taskHead(t) + outsStr(t.Outputs) + " {\n" + cmdLines(commands, $i)
+//@ loop 3: use cmd_lines(commands, t.Commands, len(t.Commands))
+//@ loop 3: decreases len(commands) - $i
+
+//@ func (Tree).Write
+//@ props C07 C11 C15 C19
+//@ requires forall k int :: {t.Nodes[k]} 0 <= k && k < len(t.Nodes) ==> t.Nodes[k] != nil
+//@ modifies s.text
+//@ ensures s.text == old(s.text) + treeStr(t.Nodes, len(t.Nodes))
+//@ loop 0: invariant 0 <= $i && $i <= len(t.Nodes) && s.text == old(s.text) + treeStr(t.Nodes, $i)
+//@ loop 0: decreases len(t.Nodes) - $i
+
+//@ func (Tree).String
+//@ props C07 C11 C15 C19
+//@ requires forall k int :: {t.Nodes[k]} 0 <= k && k < len(t.Nodes) ==> t.Nodes[k] != nil
+//@ ensures result == treeStr(t.Nodes, len(t.Nodes))
